@@ -218,6 +218,21 @@ def valid_workloads(case):
     """A minimised case must stay inside the property's quantifier: packet sizes >= 1 byte, instants >= 0."""
     for key in ('workload', 'workload2', 'workload_b'):
         for x in case.get(key, []) or []:
-            if len(x) < 3 or x[2] < 1 or x[0] < 0:
+            if len(x) not in (3, 4, 5, 6) or x[2] < 1 or x[0] < 0:
+                return False
+            if len(x) > 3 and not (x[3] is None or isinstance(x[3], (int, float))):
+                return False
+            if len(x) > 5 and not (x[5] is None or (isinstance(x[5], int) and 0 <= x[5] <= 8)):
+                return False
+    return True
+
+
+def valid_workloads_noreuse(case):
+    """As valid_workloads, for scenarios whose packets are all distinct objects (5th field unused)."""
+    if not valid_workloads(case):
+        return False
+    for key in ('workload', 'workload2', 'workload_b'):
+        for x in case.get(key, []) or []:
+            if len(x) > 4 and x[4] is not None:
                 return False
     return True
